@@ -65,9 +65,9 @@ ASSUMPTIONS = [
 ]
 QUICK = dict(cases=150, workers=2, timecap=45)
 THOROUGH = dict(cases=15000, workers=16, timecap=600)
-REQUIRED = {"readback": 1500, "others_untouched": 10000, "never_written": 2000, "alias_read": 300,
-            "audit_write_open": 1000, "audit_mkdir": 300, "home_clean": 100, "rejected_update": 80,
-            "rejected_intact": 300, "install_call": 40, "install_readback": 60}
+REQUIRED = {"readback": 1500, "others_untouched": 10000, "never_written": 10000, "alias_read": 3000,
+            "audit_write_open": 1500, "audit_mkdir": 1500, "home_clean": 100, "rejected_update": 100,
+            "rejected_intact": 1000, "install_call": 60, "install_readback": 100}
 
 # ----------------------------------------------------------------------------------------------------------------
 # independent species table: variable name in cherab.core.atomic.elements -> (symbol, Z)
@@ -439,7 +439,7 @@ def _bad_item(rng, pools, fam, vclass):
 
 def _install_op(rng, pools, big):
     kind = _pick(rng, list(INSTALL_ROUTES))
-    op = {"op": "install", "kind": kind}
+    op = {"op": "install", "kind": kind, "via_files": bool(rng.random() < 0.3)}
     lg = lambda lo, hi, n: sorted(round(float(v), 5) for v in rng.uniform(lo, hi, size=n))
     if kind.startswith("adf11"):
         el = _pick(rng, [s for s in pools.species if s in ELEMENTS] or ELEMENTS)
@@ -873,6 +873,7 @@ class _History:
         self.n_others = 0
         self.outside_paths = []
         self.spell = {}          # (fam, ckey) -> transition spelling of the last write
+        self.symbols = set()     # species symbols this history refers to
 
     # --- model access (beam_cx grouped by transition for reading) -------------------------------------------------
     def lookup(self, fam, ckey):
@@ -885,7 +886,15 @@ class _History:
         if alias is None:
             alias = 2
             spelled = self.spell.get((fam, ckey))
-        st, got, aliased = _read(fam, ckey, self.repo, alias, spelled)
+        _AUD["events"] = []
+        _AUD["active"] = True
+        try:
+            st, got, aliased = _read(fam, ckey, self.repo, alias, spelled)
+        finally:
+            _AUD["active"] = False
+        if _AUD["events"]:
+            ev, _AUD["events"] = _AUD["events"], []
+            _judge_audit(self.ctx, self, FAM[fam][3], ev, self.repo, self.ctx.home)
         if FAM[fam][0] == "bcx" and st == "ok":
             if ckey[4] in got:
                 return "ok", got[ckey[4]], aliased
@@ -1028,26 +1037,27 @@ class _History:
             for sib in SIBLINGS[fam]:
                 if FAM[sib][0] == FAM[fam][0] or (FAM[sib][0] in ("pec", "wl") and FAM[fam][0] in ("pec", "wl")):
                     cand.append((sib, ckey))
-            # neighbouring charge, other symbols of the same element, other metastable
-            kind = FAM[fam][0]
-            qi = {"sq": 1, "tcx": 3, "pec": 1, "wl": 1, "pectcx": 3, "bcx": 2, "stop": 2, "pop": 3, "emis": 2}[kind]
-            for dq in (-1, 1):
-                if ckey[qi] + dq >= 0:
-                    cand.append((fam, ckey[:qi] + (ckey[qi] + dq,) + ckey[qi + 1:]))
-            si = {"sq": 0, "tcx": 2, "pec": 0, "wl": 0, "pectcx": 2, "bcx": 1, "stop": 1, "pop": 2, "emis": 1}[kind]
-            for g in ISO_GROUPS:
-                syms = [SPECIES[n][0] for n in g]
-                if ckey[si] in syms:
-                    for s in syms:
-                        if s != ckey[si]:
-                            cand.append((fam, ckey[:si] + (s,) + ckey[si + 1:]))
-            if kind in HAS_TRANSITION:
-                ti = {"pec": 2, "wl": 2, "pectcx": 4, "bcx": 3, "emis": 3}[kind]
-                u, l = ckey[ti]
-                cand.append((fam, ckey[:ti] + ((l, u),) + ckey[ti + 1:]))
-                cand.append((fam, ckey[:ti] + ((u + "x", l),) + ckey[ti + 1:]))
-            if kind == "pop":
-                cand.append((fam, (ckey[0], ckey[1] + 1) + ckey[2:]))
+            # neighbours of the written key in every coordinate: integer positions (charges, donor charge, metastable)
+            # +-1, symbol positions replaced by the other symbols of the same element and by the other symbols this
+            # history uses, transition swapped / extended
+            for i, x in enumerate(ckey):
+                if isinstance(x, int):
+                    for dq in (-1, 1):
+                        if x + dq >= 0:
+                            cand.append((fam, ckey[:i] + (x + dq,) + ckey[i + 1:]))
+                elif isinstance(x, str):
+                    alts = set(self.symbols)
+                    for g in ISO_GROUPS:
+                        syms = [SPECIES[n][0] for n in g]
+                        if x in syms:
+                            alts.update(syms)
+                    for sname in sorted(alts):
+                        if sname != x:
+                            cand.append((fam, ckey[:i] + (sname,) + ckey[i + 1:]))
+                else:
+                    u, l = x
+                    cand.append((fam, ckey[:i] + ((l, u),) + ckey[i + 1:]))
+                    cand.append((fam, ckey[:i] + ((u + "x", l),) + ckey[i + 1:]))
         for p in self.probes:
             cand.append((p["fam"], canon_key(p["fam"], p["key"])))
         seen = set()
@@ -1290,7 +1300,13 @@ def run_case(case, ctx):
         os.chdir(work)
         home_before = _snapshot(home)
         H = _History(ctx, repo_path, case.get("probes", []))
-        _run_history(case, ctx, H, repo_path, adas_dir, home)
+        for op in case["ops"]:
+            for d in [op] + [it["key"] for it in op.get("items", [])] + ([op["key"]] if "key" in op else []):
+                for f in ("sp", "don", "rec", "beam", "tgt", "species", "donor", "receiver", "target"):
+                    if isinstance(d.get(f), str) and d[f] in SPECIES:
+                        H.symbols.add(SPECIES[d[f]][0])
+        if H.check_never_written("fresh-repository", []):
+            _run_history(case, ctx, H, repo_path, adas_dir, home)
         # final file-system sensors
         ctx.mon("home_clean")
         new_all = sorted(_snapshot(home) - home_before)
@@ -1467,6 +1483,12 @@ def _do_install(op, ctx, H, repo_path, adas_dir, home, n_file):
     rel = _write_adf(op, adas_dir, n_file)
     args, kw = _install_args(op, rel)
     f = getattr(_S["inst"], fn)
+    if op.get("via_files") and not kw.get("header_format"):
+        # same front-end reached through the install_files() dispatcher of install.py
+        ctx.mon("install_via_install_files")
+        config = {kind: (tuple(args),)}
+        args, kw = (config,), {}
+        f = _S["inst"].install_files
     devnull = open(os.devnull, "w")
     out0 = sys.stdout
     with _Recorder() as rec:
